@@ -196,7 +196,9 @@ def _mutate_value(old, size, kind, val, img, rnd_other=None):
         fs = img.fs; gd = fs.gds()[val % fs.ngroups]
         return [gd.itable, gd.bbitmap, gd.ibitmap, fs.first_data, gd.itable + 1][val % 5] & mask
     if k == 'out_of_range':
-        return (img.fs.blocks + val % 1000) & mask
+        # boundary values first: the first invalid block number (== blocks_count), one past it, then further out / all ones
+        b = img.fs.blocks
+        return [b, b + 1, b + val % 1000, mask, b + (val * 7919) % (1 << 20)][val % 5] & mask
     return old
 
 def _field(img, base, fields, field, kind, val, sibling_base=None):
@@ -240,6 +242,12 @@ def _apply_one(img, cls, obj, field, kind, val, fixup):
         blk = gd.bbitmap if cls == 'bbitmap' else gd.ibitmap
         nbits = (fs.cpg if cls == 'bbitmap' else fs.ipg)
         bit = (field * 131 + val) % nbits
+        if kind % 4 == 2:
+            # boundary-biased: the last valid bits of the group (the last group may be short and its bit count need not be a multiple of 8), or the very first ones
+            valid = nbits
+            if cls == 'bbitmap': valid = min(nbits, (fs.glast(g) - fs.gfirst(g) + 1 + fs.cratio - 1) // fs.cratio)
+            bit = (valid - 1 - val % 9) if field % 3 else val % 3
+            bit = max(0, min(bit, nbits - 1))
         if kind % 4 == 3:  # a run of bits
             ln = 1 + val % 40
             for b in range(bit, min(nbits, bit + ln)):
